@@ -696,6 +696,44 @@ def bump_explicit_above(prog, node=None, var=None):
     return bumped
 
 
+def resplit_pair(prog):
+    """Two explicitly versioned memento functions of one module that one automatically versioned function calls
+    directly by bare name, in the order of their names - or None. Used for aimed histories in which the two version
+    strings change while their concatenation stays the same ("1" + "12" -> "11" + "2")."""
+    nodes = prog["nodes"]
+    for u, nd in enumerate(nodes):
+        if nd["kind"] != "memento" or nd["version"] is not None:
+            continue
+        ts = sorted({c["t"] for c in nd["calls"] if c["form"] == "bare" and nodes[c["t"]]["kind"] == "memento"
+                     and nodes[c["t"]]["mod"] == nd["mod"]}, key=lambda t: nodes[t]["name"])
+        for a, b in zip(ts, ts[1:]):
+            return u, a, b
+    return None
+
+
+def make_resplit(prog):
+    """(initial edition, next edition, description) for a program that has a resplit pair, else None: the pair is
+    pinned to versions "1" and "12"; the edit changes both bodies and re-pins them to "11" and "2"."""
+    pair = resplit_pair(prog)
+    if pair is None:
+        return None
+    u, a, b = pair
+    p0 = copy.deepcopy(prog)
+    p0["nodes"][a]["version"], p0["nodes"][b]["version"] = "1", "12"
+    p1 = copy.deepcopy(p0)
+    p1["nodes"][a]["version"], p1["nodes"][b]["version"] = "11", "2"
+    p1["nodes"][a]["const"] += 3
+    p1["nodes"][b]["const"] += 5
+    desc = {"kind": "resplit", "node": a, "var": None, "changed_defs": [a, b]}
+    # (the user's contract: explicitly versioned functions above the two are bumped as well)
+    desc["bumped"] = sorted(set(bump_explicit_above(p1, node=a)) | set(bump_explicit_above(p1, node=b)))
+    for i in desc["bumped"]:
+        if i in (a, b):
+            p1["nodes"][i]["version"] = "11" if i == a else "2"
+    desc["changed_defs"] = sorted(set(desc["changed_defs"]) | set(desc["bumped"]))
+    return p0, p1, desc
+
+
 # ---------------------------------------------------------------- edit operators
 def apply_special(rng, prog, kind):
     """Edits used by C13 only: late-defined symbols and memento <-> plain switches."""
